@@ -760,6 +760,12 @@ func runCase1(n int, di int, ds *dataset, u *upstream, sv *server, e exprCase, m
 				co.Known = addRule(co.Known, fStaleEnd)
 			case !hasMatrixSelector(e.Expr) && fromSv.Err == "" && trailingLoss(fromSv, svr):
 				co.Known = addRule(co.Known, fSelTrailing)
+			case fromSv.Err == "" && lostAtSliceBoundary(ds, e.Expr, fromSv, svr):
+				if hasMatrixSelector(e.Expr) {
+					co.Known = addRule(co.Known, fStepGtRange)
+				} else {
+					co.Known = addRule(co.Known, fSelTrailing)
+				}
 			default:
 				co.Unexplained = true
 			}
@@ -977,7 +983,8 @@ func runAll(sv *server, nds, ncases int, corpus []string) int {
 		for c := 0; c < ncases; c++ {
 			e := genExpr(r)
 			mode, t, start, end, step, hit := genTiming(r, &ds, all, ge, &e)
-			co := runCase(n, di, &ds, u, sv, e, mode, t, start, end, step, hit, r)
+			// the case's own PRNG (model cuts, retries): re-asking or replaying a case must not shift the cases after it
+			co := runCase(n, di, &ds, u, sv, e, mode, t, start, end, step, hit, r.Fork())
 			gen.Emit(co)
 			n++
 		}
